@@ -261,12 +261,19 @@ def check_a(ck, repo):
         n_paths += 1
         r = p.ret
         ok1 = False
+        LI = pos = None
         if isinstance(r, ast.Call) and ast.unparse(r.func) in ("numpy.array", "numpy.asarray") and r.args and isinstance(r.args[0], (ast.ListComp, ast.GeneratorExp)) and len(r.args[0].generators) == 1 and not r.args[0].generators[0].ifs:
             comp = r.args[0]
             g = comp.generators[0]
             if isinstance(comp.elt, ast.Subscript) and isinstance(g.target, ast.Name) and ast.unparse(comp.elt.slice) == g.target.id:
                 LI = ast.unparse(comp.elt.value)
                 pos = _unwrap(g.iter)
+        elif isinstance(r, ast.Subscript) and isinstance(r.value, ast.Call) and ast.unparse(r.value.func) in ("numpy.array", "numpy.asarray") and len(r.value.args) == 1 and not isinstance(r.slice, (ast.Tuple, ast.Slice)):
+            # the same lookup for the whole array at once: array(LI)[positions]
+            LI = ast.unparse(r.value.args[0])
+            pos = _unwrap(r.slice)
+        if LI is not None:
+            if True:
                 if isinstance(pos, ast.Call) and ast.unparse(pos.func) == "numpy.argmax" and pos.args:
                     ax = pos.args[1] if len(pos.args) > 1 else next((k.value for k in pos.keywords if k.arg == "axis"), None)
                     ok1 = ax is not None and ast.unparse(ax) == "1" and ast.unparse(pos.args[0]) == f"model.decision_path({Xp})[:, {LI}]"
@@ -499,6 +506,28 @@ def check_c(ck, repo):
                 ck.verdict(ok, "C12.c", g, f"{label}: children {[(x[1], x[2], x[3]) for x in ra]}", "children are attached to the node just created; left covers [i, m), right [m, j), m the middle edge", f"{label}: recursive calls {[(x[0][:20], x[1], x[2], x[3]) for x in ra]}: ranges changed, or children are not attached to the node just created")
                 if is_leaf == "False" and th is not None and len(ra) == 2:
                     ck.verdict(ctext(th) == ctext(f"{bins_p}[{ra[0][2]}]"), "C12.c", g, f"{label}: threshold {th}", "the threshold is the edge that separates the two children", f"{label}: threshold {th} is not bins[{ra[0][2]}], the edge between the two child ranges")
+    inlined_root = "add_root" not in names and "root" not in seen_kinds
+    if inlined_root:
+        # the root may be created by digitize2tree itself rather than by a nested builder
+        for p in asc:
+            if p.ret == RAISE:
+                continue
+            tn = [c for c in p.calls if src_of(c.func) == "tree_add_node"]
+            va = [c for c in p.calls if src_of(c.func) == f"{vals}.append"]
+            if len(tn) == 1 and len(va) == 1:
+                a = [ast.unparse(x) for x in tn[0].args]
+                M_ = ctext(f"len({bins_p}) // 2")
+                if (a[0] == "tree" or a[0].startswith("Tree(")) and a[1:4] == ["-1", "False", "False"] and len(a) > 5 and ctext(a[5]) == ctext(f"{bins_p}[{M_}]") and ast.unparse(va[0].args[0]) in ("UNUSED", "numpy.nan"):
+                    seen_kinds.add("root")
+                    n_branches += 1
+                    ck.holds("C12.c", fi, "root created at the top level", "the root has no parent, no value and splits on the middle edge")
+                else:
+                    ck.violated("C12.c", fi, tn[0], f"the root is created with ({', '.join(a[:6])}) and value {ast.unparse(va[0].args[0])}; expected no parent, a split on {bins_p}[len({bins_p}) // 2] and no value")
+                    seen_kinds.add("root")
+        if "root" not in seen_kinds:
+            ck.unknown("C12.c", fi, "root node", "no builder named add_root and no single tree_add_node / values.append pair at the top level: the creation of the root is not in a form this rule reads")
+            seen_kinds.add("root")
+            n_branches = max(n_branches, 3)
     ck.verdict(n_branches >= 3 and seen_kinds >= {"root", "leaf", "split"}, "C12.c", fi, f"{n_branches} node-creating paths in the builders ({sorted(seen_kinds)})", "root, leaf and split cases are all present", f"only {sorted(seen_kinds)} among root / leaf / split node-creating paths were found ({n_branches} paths)")
     # top level
     oka = len(asc) >= 1
@@ -513,6 +542,10 @@ def check_c(ck, repo):
         ta = [(_nm(c), [ast.unparse(x) for x in c.args]) for c in top]
         M = ctext(f"len({bins_p}) // 2")
         want_ = [("add_root", [M]), ("add_nodes", ["0", "0", M, "True"]), ("add_nodes", ["0", M, f"len({bins_p})", "False"])]
+        if inlined_root:
+            want_ = want_[1:]
+            rootcalls = {ast.unparse(c) for c in p.calls if src_of(c.func) == "tree_add_node"}
+            ta = [(n_, ["0" if i_ == 0 and x in rootcalls else x for i_, x in enumerate(xs)]) for n_, xs in ta]
         st = {k: ast.unparse(v) for k, v in p.stores.items()}
         inst = [v for k, v in st.items() if k.endswith(".tree_.value[:, 0, 0]")]
         oka = oka and ta == want_ and inst == [f"numpy.array({vals}, dtype=numpy.float64)"]
